@@ -12,7 +12,7 @@ import z3
 
 from pyvc import values as V
 from pyvc.values import Obj, SStr, is_str, z_and, z_or, z_not
-from pyvc.contracts import Contract, FunctionUnit, sym_str, sym_bool
+from pyvc.contracts import Contract, FunctionUnit, sym_str, sym_bool, new_obj
 from pyvc.interp import PyExc
 from pyvc.smt import EngineError
 from pyvc.replay import PRELUDE, model_str
@@ -98,6 +98,19 @@ def register(reg):
             it.raise_builtin('TypeError', 'wd:type[os.path.join of non-str]')
         return _uf(it, 'os.path.join', 'str', a, b)
 
+    # purely lexical path functions: uninterpreted string functions (A-FS) -- in particular nothing relates them to realpath:
+    # a lexically normalised path may still go through a symbolic link
+    for _nm in ('normpath', 'abspath', 'normcase', 'expanduser', 'dirname', 'basename'):
+        def _lexical(it, p, _nm=_nm):
+            if not V.is_str(p):
+                it.raise_builtin('TypeError', 'wd:type[os.path.%s of non-str]' % _nm)
+            return _uf(it, 'os.path.' + _nm, 'str', p)
+        reg.lib('os.path.' + _nm)(_lexical)
+
+    @reg.lib('os.getcwd')
+    def getcwd(it):
+        return _uf(it, 'os.getcwd', 'str', '')
+
     @reg.lib('os.path.commonprefix')
     def commonprefix(it, lst):
         """A-LIB: os.path.commonprefix([a, b]) is the longest common *character* prefix."""
@@ -173,11 +186,62 @@ def register(reg):
         ],
         modifies=[],
     ))
+    # ---- the object that holds the configuration: what is stored is what was given; "no directory" switches file access off ----------
+    L2T = 'pylatexenc.latex2text.LatexNodes2Text'
+    from pyvc.values import PyDict, AbsVal
+    import z3 as _z3
+
+    def setup_set(it):
+        d = None if it.ctx.choose(2, 'a directory is given') == 0 else sym_str(it, 'tex_input_directory')
+        me = new_obj(it, L2T, {'tex_input_directory': sym_str(it, 'previous_directory'), 'strict_input': sym_bool(it, 'previous_strict'),
+                               'latex_walker_init_args': PyDict()}, tag='self')
+        kw = None if it.ctx.choose(2, 'walker arguments given') == 0 else PyDict({'tolerant_parsing': True})
+        return {'self': me, 'tex_input_directory': d, 'latex_walker_init_args': kw, 'strict_input': sym_bool(it, 'strict_input')}
+    c_set = Contract(L2T + '.set_tex_input_directory', setup=setup_set,
+                     ensures=[('no-directory-given-means-none-configured-which-switches-file-access-off',
+                               '(self.tex_input_directory is None) == (tex_input_directory is None)'),
+                              ('the-strict-flag-is-stored-as-given', 'self.strict_input is strict_input')],
+                     modifies=['self.tex_input_directory', 'self.strict_input', 'self.latex_walker_init_args'])
+
+    def setup_rif(it):
+        d = None if it.ctx.choose(2, 'a directory is configured') == 0 else sym_str(it, 'tex_input_directory')
+        me = new_obj(it, L2T, {'tex_input_directory': d, 'strict_input': sym_bool(it, 'strict_input'),
+                               'latex_walker_init_args': PyDict()}, tag='self')
+        return {'self': me, 'fn': sym_str(it, 'fn')}
+    reg.spec('file_reads')(lambda it: len(it.ctx.ghost.get('file_reads', [])))
+
+    @reg.spec('one_read_with')
+    def one_read_with(it, d, strict, fn, result):
+        calls = it.ctx.ghost.get('file_reads', [])
+        return len(calls) == 1 and calls[0][0] is d and calls[0][1] is strict and calls[0][2] is fn and result is calls[0][3]
+    c_rif = Contract(L2T + '.read_input_file', setup=setup_rif,
+                     ensures=[('internal:no-directory-configured-means-no-file-access-and-an-empty-result',
+                               "implies(self.tex_input_directory is None, file_reads() == 0 and result == '')"),
+                              ('internal:otherwise-one-read-through-read_latex_file-with-the-configured-directory-and-strictness',
+                               'implies(self.tex_input_directory is not None, '
+                               'one_read_with(self.tex_input_directory, self.strict_input, fn, result))')],
+                     modifies=[])
+
+    class _ReadUnit(FunctionUnit):
+        pass
+    rif_unit = FunctionUnit(c_rif)
+    # inside this unit read_latex_file is the logged stub below (its own unit verifies it)
+    _orig_rlf = c.apply_at_call
+
+    def logged_read(it, func, bound, node):
+        if it.cur_func_name().endswith('read_input_file'):
+            r = it.fresh_str('file_content')
+            it.ctx.ghost.setdefault('file_reads', []).append((bound['tex_input_directory'], bound['strict_input'], bound['fn'], r))
+            return r
+        return _orig_rlf(it, func, bound, node)
+    c.apply_at_call = logged_read
     contracts.REPLAYERS['read_latex_file'] = replay
+    contracts.REPLAYERS['set_tex_input_directory'] = replay
+    contracts.REPLAYERS['read_input_file'] = replay
     contracts.EXTRA_ASSUMPTIONS['C15'] = [
         "A-FS: realpath/join/exists/isfile/content are uninterpreted functions of their arguments, fixed during one "
         "call (no TOCTOU claim); laws assumed: realpath is idempotent; a real path is non-empty and does not end with '/' unless it has length 1"]
-    return {'C15': {'read_latex_file': FunctionUnit(c)}}
+    return {'C15': {'read_latex_file': FunctionUnit(c), 'set_tex_input_directory': FunctionUnit(c_set), 'read_input_file': rif_unit}}
 
 
 def replay(o, model):
@@ -216,6 +280,23 @@ with tempfile.TemporaryDirectory() as top:
     if read_latex_file(base, True, "inside") != "INSIDE" or read_latex_file(base, True, "inside.tex") != "INSIDE" \
             or read_latex_file(base + os.sep, True, "inside.tex") != "INSIDE":
         reproduced("a name that resolves inside the directory was not read", "inside-not-read")
+    # no directory configured (never, or explicitly None): nothing is read, whatever the current directory holds
+    cwd = os.getcwd()
+    try:
+        os.chdir(base)
+        for conf in (None, "none", "none-nonstrict", "reset"):
+            l2t = LatexNodes2Text()
+            if conf == "none": l2t.set_tex_input_directory(None)
+            if conf == "none-nonstrict": l2t.set_tex_input_directory(None, strict_input=False)
+            if conf == "reset":
+                l2t.set_tex_input_directory(base); l2t.set_tex_input_directory(None)
+            for n in ("inside", "inside.tex", "../out/secret.tex"):
+                t = l2t.latex_to_text(r"a\input{%s}b" % n)
+                if t != "ab":
+                    reproduced("no input directory configured (%s), current directory %r: latex_to_text(\\input{%s}) read a file: %r"
+                               % (conf, "<top>/base", n, t), "no-directory-still-reads")
+    finally:
+        os.chdir(cwd)
     rel = os.path.realpath(os.path.join(base, "inside.tex")).lstrip(os.sep)
     for rootdir in ("/", os.path.join(base, "rootlink")):
         if rootdir != "/":
